@@ -65,7 +65,7 @@ def run(ctx):
     specs = [episode_for(p, rng, 6) for p in (rng.sample(projects, 150) if ctx.quick else projects)]
     n_rand = 200 if ctx.quick else 4000
     for _ in range(n_rand):
-        p = projgen.random_project(rng, max_depth=rng.choice([3, 4, 5]), n_dirs=rng.randint(3, 9), positions=False,
+        p = projgen.random_project(rng, max_depth=rng.choice([3, 4, 5]), n_dirs=rng.randint(3, 9), positions=False, odd=rng.random() < 0.3,
                                    n_stmts=rng.randint(5, 40))
         specs.append(episode_for(p, rng, 10))
     # real source trees found on this machine (harness/wild.py), abstracted independently of pytestarch
